@@ -61,7 +61,7 @@ def run(ctx, spec):
             cases = load_corpus(prop, comp["comp"]) + comp["gen"](ctx.rng, ctx.tier)
             ctx.cov["distribution"][comp.get("label", comp["comp"])] = comp.get("dist", lambda cs: {})(cases)
             bads += C.corr_component(ctx, comp["comp"], cases, comp.get("nontrivial"), label=comp.get("label"),
-                                     oracle=comp.get("oracle"), shrink=comp.get("shrink", True))
+                                     oracle=comp.get("oracle"), shrink=comp.get("shrink", True), env=comp.get("env"))
     elif harness_ok:
         ctx.broken.append("model driver missing (lean build failed)")
     if harness_ok and spec.get("extra"):
@@ -91,7 +91,7 @@ def run(ctx, spec):
                 else:
                     ctx.notes.append("known finding %s no longer reproduces under valgrind" % k["key"])
                 continue
-            rc, impl, _ = C.run_bin(C.CORR if w.get("bin", "corr") == "corr" else C.E2E, [w["component"]], w["ops"])
+            rc, impl, _ = C.run_bin(C.CORR if w.get("bin", "corr") == "corr" else C.E2E, [w["component"]], w["ops"], env=w.get("env"))
             if "expect" in w:
                 still = list(impl) == list(w["expect"])
             else:
@@ -134,7 +134,8 @@ def run(ctx, spec):
                 comp, cases = item[0], item[1]
                 sb = C.corr_component(ctx, comp, cases, None, label="search:" + comp,
                                       oracle=item[2] if len(item) > 2 else None,
-                                      shrink=item[3] if len(item) > 3 else True)
+                                      shrink=item[3] if len(item) > 3 else True,
+                                      env=item[4] if len(item) > 4 else None)
                 sb = [b for b in sb if b["kind"] == "oracle" and match_known(known, b) is None]
                 if sb:
                     hit = C.shrink_case(ctx, comp, sb[0])
